@@ -269,6 +269,7 @@ c = S.ext("multiprocessing.util._args_from_interpreter_flags", cite="util._args_
 c.returns(T.Obj).modifies()
 c = S.ext("sys.stderr.fileno", cite="sys.stderr.fileno(): descriptor of stderr; may raise when stderr is not a real file")
 c.returns(T.Int).modifies()
+c.ensures("stderr/its-descriptor-is-open", "G.fd_open[result]")   # A-fds: a file object that reports a descriptor owns an open one
 c.may_raise.append(("Exception", None))
 
 
@@ -316,6 +317,8 @@ c.ensures("ensure/signals-blocked-around-the-spawn-and-unblocked-after",
           "ordered('call:spawnv_passfds', lambda *a: True, 'sigmask', lambda how, m: how is obj(signal.SIG_UNBLOCK)))", prop="C12")
 c.ensures("ensure/read-end-closed-in-the-parent-write-end-kept",
           "implies(log_count('pipe') == 1, not G.fd_open[log_arg('pipe', 0, 0)] and G.fd_open[log_arg('pipe', 0, 1)])", prop=["C12", "C20"])
+# the tracker ends its life on end-of-file of the request pipe: it must not hold a write end itself (it would wait for itself for ever)
+c.at_call(f"{RT}:spawnv_passfds", "the-write-end-of-the-request-pipe-is-not-handed-to-the-tracker", "not (log_arg('pipe', 0, 1) in arg_passfds)", prop="C12")
 c.ensures("ensure/under-the-tracker-lock", "log_arg('acquire', 0, 0) is self._lock and log_pos('acquire', 0) == 0 and log_tags()[-1] == 'release'", prop=["C12", "C13"])
 NEWFD = "forall(Int, lambda fd: implies(G.fd_open[fd] and not old(G.fd_open[fd]), not is_none(self._fd) and fd == the(self._fd)))"
 c.ensures("ensure/only-the-new-write-end-stays-open", NEWFD, prop="C20")
